@@ -177,8 +177,20 @@ def replay_roundtrip(rep):
     return False, {"mode": "generated formulas / scripts printed and parsed back: nothing found"}
 
 
+def replay_smtlib_solver(rep):
+    from native import bounded_solver
+    for seed in (int(rep.get("seed", 0)), 1, 2):
+        r = bounded_solver.solver_check("quick", seed)
+        if r["violations"]:
+            return True, {"mode": "API call sequences on the real SmtLibSolver against the strict reference solver process",
+                          "failure": r["violations"][0]}
+    return False, {"mode": "API call sequences against the strict reference solver process: nothing found"}
+
+
 def dispatch(rep):
     kind = rep.get("kind")
+    if kind == "smtlib-solver":
+        return replay_smtlib_solver(rep)
     if kind == "roundtrip":
         return replay_roundtrip(rep)
     if kind == "parser":
